@@ -94,9 +94,10 @@ class Output(BaseOutput):
             self.output_period = -self.output_period
         logger.info("  Output period: %s", str(self.output_period))
 
-        self.num_records = int(
-            abs((timer.stop_time - timer.start_time) // self.output_period)
-        )
+        if skip_initial:  # Warm start, records at steps p, 2p, ... <= Nsteps
+            self.num_records = int(timer.Nsteps // self.output_period_step)
+        else:  # Records at steps 0, p, 2p, ... < Nsteps
+            self.num_records = int((timer.Nsteps - 1) // self.output_period_step) + 1
         # if not skip_initial:  # Add an initial record
         #     self.num_records += 1
         logger.info("  Number of records: %s", self.num_records)
